@@ -285,8 +285,20 @@ def h_redefinition_history(eng, pre):
     eng.assume(Not(Eq(su2, W.su)))
     lines = _text(W, late=False)
     line = f"u = {eng.lit(su2)} * m = U_ = uu"
+    if pre == "context-redefinition-used-before":
+        # a context whose own redefinition refers to the unit that is redefined later
+        j = lines.index("@defaults")
+        lines[j:j] = ["@context cr", "    w = 7 * u", "@end"]
     used = regs.build(eng, lines, on_redefinition="ignore")
     Qy = used.Quantity
+    if pre == "context-redefinition-used-before":
+        for _ in range(2):
+            with used.context("cr"):
+                Qy(x, "w").to("m")
+                used.get_root_units("kkw")
+        used.enable_contexts("cr")
+        Qy(x, "w").to("u")
+        used.disable_contexts()
     if pre in ("conversions", "all"):
         Qy(x, "u").to("m")
         Qy(x, "w").to("m")
@@ -311,6 +323,21 @@ def h_redefinition_history(eng, pre):
     for (la, a), (_lb, b) in zip(_answers(eng, used, x, None), _answers(eng, fresh, x, None)):
         _same(eng, a, b, f"redefinition:pre={pre}:{la}")
     eng.prove(Eq(used.Quantity(x, "w").to("m").magnitude, 3 * su2 * x), f"redefinition:pre={pre}:dependent-unit-follows")
+    if pre == "context-redefinition-used-before":
+        for form in ("with-block", "enable", "per-call"):
+            if form == "with-block":
+                with used.context("cr"):
+                    got = (Qy(x, "w").to("m").magnitude, used.get_root_units("kkw")[0], Qy(x, "u").to("m").magnitude)
+            elif form == "enable":
+                used.enable_contexts("cr")
+                got = (Qy(x, "w").to("m").magnitude, used.get_root_units("kkw")[0], Qy(x, "u").to("m").magnitude)
+                used.disable_contexts()
+            else:
+                got = (Qy(x, "w").to("m", "cr").magnitude, 7000 * su2, x * su2)
+            eng.prove(Eq(got[0], 7 * su2 * x), f"redefinition:pre={pre}:{form}:context-redefinition-follows-the-new-definition")
+            eng.prove(Eq(got[1], 7000 * su2), f"redefinition:pre={pre}:{form}:root-factor-inside-the-context")
+            eng.prove(Eq(got[2], x * su2), f"redefinition:pre={pre}:{form}:redefined-unit-inside-the-context")
+        eng.prove(Eq(used.Quantity(x, "w").to("m").magnitude, 3 * su2 * x), f"redefinition:pre={pre}:outside-the-context-afterwards")
     eng.prove(Eq(used.get_root_units("w")[0], 3 * su2), f"redefinition:pre={pre}:get_root_units-follows")
 
 
@@ -350,12 +377,17 @@ def h_define_parsed_name(eng, pre):
     eng.assume(s7 > 0)
     lines = _text(W, late=False)
     used = regs.build(eng, lines, on_redefinition="ignore")
-    name = {"prefixed": "kku", "plural": "uus", "prefixed-symbol": "KU_"}[pre]
+    alias = pre.startswith("alias")
+    name = {"prefixed": "kku", "plural": "uus", "prefixed-symbol": "KU_"}[pre.split(":")[-1]]
     used.parse_units(name)
     used.Quantity(x, name).to_root_units()
     used.get_name(name)
-    line = f"{name} = {eng.lit(s7)} * s"
-    used.define(line)
+    # ... as a unit of its own, or as one more spelling of an existing unit
+    line = f"@alias w = {name}" if alias else f"{name} = {eng.lit(s7)} * s"
+    if pre.startswith("alias-load"):
+        used.load_definitions([line])
+    else:
+        used.define(line)
     i = lines.index("@defaults")
     fresh = regs.build(eng, lines[:i] + [line] + lines[i:], on_redefinition="ignore")
     for label, fn in (("parse_units", lambda r: dict(r.parse_units(name)._units)), ("to_root_units", lambda r: (lambda q: (q.magnitude, dict(q._units)))(r.Quantity(x, name).to_root_units())), ("get_name", lambda r: r.get_name(name)),
@@ -369,6 +401,10 @@ def h_define_parsed_name(eng, pre):
         except (DimensionalityError, UndefinedUnitError) as ex:
             b = type(ex).__name__
         _same(eng, a, b, f"define-parsed-name:{pre}:{label}")
+    if alias:
+        eng.prove(used.get_name(name) == "w" and dict(used.parse_units(name)._units) == {"w": 1}, f"define-parsed-name:{pre}:reads-as-the-aliased-unit")
+        eng.prove(Eq(used.Quantity(x, name).to("u").magnitude, 3 * x), f"define-parsed-name:{pre}:value")
+        return
     eng.prove(Eq(used.Quantity(x, name).to("s").magnitude, x * s7), f"define-parsed-name:{pre}:value")
 
 
@@ -519,11 +555,11 @@ def cases(tier, seed):
     from .. import covers
 
     fp = covers.same_dim_pairs(seed, 400 if big else 60) + [("minute", "second"), ("week", "day"), ("pound", "kilogram"), ("second", "minute"), ("inch", "yard"), ("hour", "millisecond")]
-    for pre in ("nothing", "conversions", "roots", "names", "all", "via-load_definitions"):
+    for pre in ("nothing", "conversions", "roots", "names", "all", "via-load_definitions", "context-redefinition-used-before"):
         out.append(Case("H13", f"redefinition:pre={pre}", M, "h_redefinition_history", {"pre": pre}, opts={"hash_mode": "mixed", "max_paths": 300}, validate=1))
     for asked in ("nothing", "dimensionality", "check", "all"):
         out.append(Case("H13", f"context-conversion:{asked}", M, "h_result_of_context_conversion", {"asked": asked}, opts={"hash_mode": "mixed", "max_paths": 300}, validate=1))
-    for pre in ("prefixed", "plural", "prefixed-symbol"):
+    for pre in ("prefixed", "plural", "prefixed-symbol", "alias:prefixed", "alias:plural", "alias-load:prefixed"):
         out.append(Case("H13", f"define-parsed-name:{pre}", M, "h_define_parsed_name", {"pre": pre}, opts={"hash_mode": "mixed", "max_paths": 300}, validate=1))
     for first in ("per-call-kw", "with-kw", "enable-kw", "nested-inherits", "plain"):
         for ep in ("derived", "derived-both"):
